@@ -96,7 +96,7 @@ def map_value_ends_in_record(node, table, seen=()):
     return False
 
 
-def record_reuse_substring(node, table):
+def record_reuse_substring(node, table, include_inline=False):
     """A record that is used again by name and has a field whose type string (primitive or reference)
     contains the record's full name as a substring: the grammar builder's `name in field["type"]` test
     mistakes it for recursion."""
@@ -122,7 +122,7 @@ def record_reuse_substring(node, table):
     for name in reused:
         for f in table[name]["fields"]:
             t = f["type"]
-            ts = t["name"] if t["k"] == "ref" else (t["k"] if t["k"] in M.PRIMS and "logical" not in t else None)
+            ts = t["name"] if (t["k"] == "ref" or (include_inline and t["k"] in M.NAMED)) else (t["k"] if t["k"] in M.PRIMS and "logical" not in t else None)
             if ts is not None and name in ts:
                 return True
     return False
